@@ -325,6 +325,23 @@ impl Iterator for ClosestBucketsIter {
     }
 }
 
+#[cfg(feature = "verif")]
+impl RoutingTable {
+    /// Verification hook: dump of `(bucket index, peer, key bytes, connection type, addresses)`.
+    pub fn verif_dump(&self) -> Vec<(usize, PeerId, [u8; 32], ConnectionType, Vec<Multiaddr>)> {
+        self.buckets
+            .iter()
+            .enumerate()
+            .flat_map(|(index, bucket)| {
+                bucket.verif_nodes().iter().map(move |node| {
+                    let (peer, key, connection, addresses) = node.verif_parts();
+                    (index, peer, key, connection, addresses)
+                })
+            })
+            .collect()
+    }
+}
+
 #[cfg(test)]
 mod tests {
     use super::*;
